@@ -29,6 +29,9 @@ type Action struct {
 	Raw     []byte
 	RawDesc string
 	D       time.Duration
+	// Pad: the packet of a pub / pubrel action is sent with that many extra bytes in its
+	// remaining-length field (accepted by the library, so it has to be treated like the packet it is)
+	Pad int
 	// Expect of a "connectraw" action: accept | code1 | code2 | code4 | close | code1-or-close | pending
 	Expect string
 }
@@ -50,8 +53,14 @@ func (a Action) String() string {
 	case "unsub":
 		return fmt.Sprintf("%s:unsub(%d,%s)", a.Client, a.ID, strings.Join(a.Filters, ","))
 	case "pub":
+		if a.Pad > 0 {
+			return fmt.Sprintf("%s:pub(%s,q%d,r%v,dup=%v,id=%d,%s,length field padded by %d)", a.Client, a.Topic, a.QoS, a.Retain, a.Dup, a.ID, short(a.Payload), a.Pad)
+		}
 		return fmt.Sprintf("%s:pub(%s,q%d,r%v,dup=%v,id=%d,%s)", a.Client, a.Topic, a.QoS, a.Retain, a.Dup, a.ID, short(a.Payload))
 	case "pubrel":
+		if a.Pad > 0 {
+			return fmt.Sprintf("%s:pubrel(%d, length field padded by %d)", a.Client, a.ID, a.Pad)
+		}
 		return fmt.Sprintf("%s:pubrel(%d)", a.Client, a.ID)
 	case "pub2":
 		return fmt.Sprintf("%s:pub+rel(%s,q2,r%v,id=%d,%s)", a.Client, a.Topic, a.Retain, a.ID, short(a.Payload))
@@ -268,7 +277,7 @@ func (h *Harness) Step(a Action) []Mismatch {
 		e.Must = []*refcodec.Packet{{Type: refcodec.UNSUBACK, ID: a.ID}}
 		altClose = append(altClose, a.Client)
 	case "pub":
-		p := &refcodec.Packet{Type: refcodec.PUBLISH, Topic: []byte(a.Topic), Payload: []byte(a.Payload), QoS: a.QoS, Retain: a.Retain, Dup: a.Dup, ID: a.ID}
+		p := &refcodec.Packet{Type: refcodec.PUBLISH, Topic: []byte(a.Topic), Payload: []byte(a.Payload), QoS: a.QoS, Retain: a.Retain, Dup: a.Dup, ID: a.ID, PadLength: a.Pad}
 		rc.Send(p)
 		e := exp(exps, a.Client)
 		e.Comp = "acks"
@@ -290,7 +299,7 @@ func (h *Harness) Step(a Action) []Mismatch {
 			}
 		}
 	case "pubrel":
-		rc.Send(&refcodec.Packet{Type: refcodec.PUBREL, ID: a.ID})
+		rc.Send(&refcodec.Packet{Type: refcodec.PUBREL, ID: a.ID, PadLength: a.Pad})
 		e := exp(exps, a.Client)
 		e.Comp = "acks"
 		e.Desc = "answer to PUBREL"
